@@ -240,7 +240,7 @@ pub const FRAGMENTS: &[&str] = &[
     "@&(=~1)d{}", "@&(~2)d{}", "@+a{}", "@-a", "@?a", "@&c{}", "~t{1%min}", "~{}", "~n", "text", "\\", "\n\n", "\n", "= s\n", "=\n",
     "> p\n\n", ">> [mode]: components\n", ">> [mode]: steps\n", ">> [mode]: text\n", ">> [mode]: all\n", ">> [duplicate]: ref\n",
     ">> [duplicate]: new\n", "@&+a{}", "@&a{}(n)", "@ß{} @&SS{}", "180 C ", "#p|q{}", "#&q", "@a|z{}", "@&z{}", "@./x/a{}", "@&./x/a{1}", "~ {}", "~[- c -]{}",
-    "@a{}[- c -]@b{}", "@&(=~1)d{} ", ">\n\n", "> \n\n", "#a", "#&a", "@p{}", "@&p", ">> [mode]: text\nintro\n\n>> [mode]: all\n", "@&(~0)d{}", "@&(=~0)d{}", "@&(40000)d{}", "@&(=~65535)d{}",
+    "@a{}[- c -]@b{}", "@&(=~1)d{} ", ">\n\n", "> \n\n", "#a", "#&a", "@p{}", "@&p", ">> [mode]: text\nintro\n\n>> [mode]: all\n", "@&(~0)d{}", "@&(=~0)d{}", "@&(40000)d{}", "@&(=~65535)d{}", "@&d{}", "x\n\n@&(~1)d{}\n\n= s\n\n", "@&q{}",
 ];
 
 pub fn run(ctx: &mut Ctx) {
